@@ -199,10 +199,14 @@ VERBOSITY = [[], ["-v"], ["-vv"], ["-vvv"]]
 LISTENERS = ["none", "passes", "handles-0", "handles-5", "handles-300", "handles-default", "raises"]
 
 
-def run_case(sh, env, outcome, msg_class, vflags, listener, ansi, quiet=False, line=None):
+def run_case(sh, env, outcome, msg_class, vflags, listener, ansi, quiet=False, line=None, style=None):
     """outcome: ('result', name) | ('raise', kind)"""
     message = MESSAGES[msg_class]
     log = T.HandlerLog()
+    if style is None:
+        env.case_no = getattr(env, "case_no", 0) + 1
+        style = env.case_no % len(log.STYLES)
+    log.made = style  # which of the four ways of attaching a handler 'alpha beta' gets (see HandlerLog.install)
     escaped = []
     value = None
     if outcome[0] == "result":
@@ -241,9 +245,11 @@ def run_case(sh, env, outcome, msg_class, vflags, listener, ansi, quiet=False, l
     tokens = list(line or LINE) + list(vflags) + (["-q"] if quiet else [])
     raw = env.ArgvArgs(["prog"] + tokens)
     out, err = env.RecStream(ansi), env.RecStream(ansi)
-    case = {"outcome": list(outcome), "message": msg_class, "flags": list(vflags), "listener": listener, "ansi": ansi, "quiet": quiet, "tokens": tokens}
+    case = {"outcome": list(outcome), "message": msg_class, "flags": list(vflags), "listener": listener, "ansi": ansi, "quiet": quiet, "tokens": tokens, "style": style,
+            "handler_style": log.styles.get("alpha beta")}
     nontrivial = not (outcome[0] == "result" and outcome[1] in ("None", "0"))
-    sh.case((outcome, msg_class, tuple(vflags), listener, ansi, quiet), nontrivial)
+    sh.tag("handler_style", str(log.styles.get("alpha beta")))
+    sh.case((outcome, msg_class, tuple(vflags), listener, ansi, quiet, style), nontrivial)
     try:
         status = app.run(raw, env.StringInputStream(""), out, err)
     except BaseException as e:
@@ -538,4 +544,4 @@ def replay(sh, case):
     elif case.get("kind") == "injection":
         sh.inconclusive_because("injection replay: rerun the check (injection points are deterministic for a given tree)")
     else:
-        run_case(sh, env, tuple(case["outcome"]), case["message"], case["flags"], case["listener"], case["ansi"], case.get("quiet", False))
+        run_case(sh, env, tuple(case["outcome"]), case["message"], case["flags"], case["listener"], case["ansi"], case.get("quiet", False), style=case.get("style"))
